@@ -959,6 +959,58 @@ pub fn directed() -> Vec<Request> {
             }
         }
     }
+    // wide items whose fields each carry a helper of one family (cycled through the family)
+    {
+        let hs = crate::gen::helper_attrs();
+        for (fam, list) in [
+            (vec!["ord", "partial_ord", "eq", "partial_eq", "hash"], "Ord, PartialOrd, Eq, PartialEq, Hash"),
+            (vec!["debug"], "Debug"),
+            (vec!["default"], "Default"),
+            (vec!["derive_ex"], "Clone, Default, Debug"),
+        ] {
+            let members: Vec<&str> = hs
+                .iter()
+                .copied()
+                .filter(|h| fam.iter().any(|n| h.starts_with(&format!("#[{n}(")) || h.starts_with(&format!("#[{n}]"))))
+                .collect();
+            if members.is_empty() {
+                continue;
+            }
+            for n in [9usize, 17, 40] {
+                for start in 0..3 {
+                    let fields: Vec<String> = (0..n).map(|i| format!("{} f{i}: T{}", members[(start + i) % members.len()], i % 3)).collect();
+                    let variants: Vec<String> = (0..n).map(|i| format!("{} V{i}({} T{})", if fam[0] == "default" { "" } else { members[(start + i + 1) % members.len()] }, members[(start + i) % members.len()], i % 3)).collect();
+                    out.push(Request { mode: Mode::Attr, attr: list.into(), item: format!("struct X<T0, T1, T2> {{ {} }}", fields.join(", ")) });
+                    out.push(Request { mode: Mode::Derive, attr: String::new(), item: format!("#[derive_ex({list})] enum X<T0, T1, T2> {{ #[default] D, {} }}", variants.join(", ")) });
+                }
+            }
+        }
+    }
+    // `by` / `key` helpers on fields with hostile names, in structs and enum variants
+    {
+        use crate::gen::ident_text;
+        for id in crate::gen::IDENTS {
+            let id = ident_text(id);
+            if id == "_" || id == "__" {
+                continue;
+            }
+            for (h1, h2) in [("#[ord(by = f)]", "#[hash(by = g)]"), ("#[eq(key = $.len())]", "#[partial_ord(by = |a, b| a.partial_cmp(b))]"), ("#[debug(transparent)]", "#[default(_)]")] {
+                out.push(Request { mode: Mode::Attr, attr: "Ord, PartialOrd, Eq, PartialEq, Hash, Debug, Default".into(), item: format!("struct X<T> {{ {h1} {h2} {id}: T }}") });
+                out.push(Request { mode: Mode::Derive, attr: String::new(), item: format!("#[derive_ex(Ord, PartialOrd, Eq, PartialEq, Hash, Debug)] enum X<T> {{ {id} {{ {h1} {id}: T, {h2} other_: u8 }}, B }}") });
+            }
+        }
+    }
+    // explicit discriminants of every expression class
+    for d in ["1", "-1", "1 + 2", "Self::K as isize", "{ 1 }", "m!()", "0x10", "1u8 as isize", "b'a' as isize", "(2)", "!0", "N", "K::V", "1 << 3", "if true { 1 } else { 2 }", "'a' as isize", "isize::MAX", "r#type", "\u{e9}"] {
+        for item in [
+            format!("enum X {{ A = {d}, B }}"),
+            format!("enum X {{ A, #[default] B = {d}, C(u8) = 7, D {{ a: u8 }} = {d} }}"),
+            format!("#[repr(u8)] enum X<T> {{ A(T) = {d}, #[default] B = 0 }}"),
+        ] {
+            out.push(Request { mode: Mode::Attr, attr: "Clone, Copy, Debug, Default, Ord, PartialOrd, Eq, PartialEq, Hash".into(), item: item.clone() });
+            out.push(Request { mode: Mode::Derive, attr: String::new(), item: format!("#[derive_ex(PartialOrd, PartialEq, Hash, Clone)] {item}") });
+        }
+    }
     // normalise to the printed token form and drop what is not a valid request
     let mut res = Vec::new();
     let mut seen = std::collections::BTreeSet::new();
